@@ -249,6 +249,31 @@ def main(tier):
                 add("%s %d %s %s" % (("F", "FD", "FT")[i % 3] if i % 5 else "F", bsz, hx(s), hx(v)), {"e": "Fmt", "fmt": s, "bsz": bsz, "val": v})
             if i % 4 == 0:
                 add("FU %d %s %s" % (1 + i % 9, hx(s), hx(("3d", "1m2d", "5h", "-70s", "2y1mo")[i % 5])), {"e": "Fmt", "fmt": s, "bsz": 1 + i % 9, "val": "dur"})
+        # input that ends inside a field: for every real token (alone, after a literal, and in the usual combinations) the text the tree's own
+        # dconv prints for it is cut at EVERY position and parsed with the same format from an exact-size block -- a reader that
+        # looks at or steps over bytes it has not seen traps here, and the end pointer must stay inside the prefix
+        tfmts = [t for t in REAL_TOKS if t not in ("%", "x", "-")] + ["x" + t for t in REAL_TOKS if len(t) > 1] + [
+            "%I:%M %p", "%I:%M%P", "%p %I", "%H:%M:%S.%N", "%d %b %Y", "%a, %d %B %Y", "%FT%T", "%Y-W%V-%u", "%Y-%m-%c-%w", "%G-W%V-%u %p", "%dth %B", "%b %dth, %Y",
+            "%Y%m%d%H%M%S", "%OY-%Om-%Od", "%Y-%jth", "%s", "@%s", "%T %p", "%Q/%Y", "%Y-%m-%db", "%A %p", "%p%S", "%I%p%M"]
+        dconv_t = b.tool("dconv")
+
+        def texts(f):
+            res = []
+            for v in ("2012-03-06T22:11:12", "2003-11-30T09:05:00"):
+                pr = core.run([dconv_t, "-f", f, v], timeout=10, env=env)
+                t = pr.stdout.rstrip("\n")
+                if pr.returncode == 0 and t and len(t) < 64 and all(" " <= ch_ <= "~" for ch_ in t):
+                    res.append(t)
+            return f, res
+        ntrunc = 0
+        with ThreadPoolExecutor(max_workers=core.NCPU) as ex:
+            for f, ts in ex.map(texts, tfmts):
+                for t in ts:
+                    for cut in range(len(t) + 1):
+                        for tail in ("",) if cut < len(t) else ("", "z"):
+                            add("P %s %s" % (hx(f), hx(t[:cut] + tail)), {"e": "Parse", "fmt": f, "str": t[:cut] + tail})
+                            ntrunc += 1
+        rep.notes["truncated_inputs"] = ntrunc
         # Buf: every model (format, bsz) with real tokens of the class; plus all pairs of real tokens x every bsz
         for ci, c in enumerate(bufcases):
             f = "".join(CLASS_TOKS[x][(ci + i) % len(CLASS_TOKS[x])] for i, x in enumerate(c["f"]))
